@@ -1,5 +1,3 @@
 CONSTANTS ConstIds = {"C1"}
-WrapSet = "none"
 SPECIFICATION Spec
-INVARIANT Sound
 CONSTRAINT Emit
